@@ -20,7 +20,10 @@ axiom("u16-additive", {"a": "str", "b": "str"}, "u16(a + b) == u16(a) + u16(b)",
 # representation invariants: assumed for every fragment / node that is read, proved for every
 # fragment that is constructed
 invariant("Fragment", "self.size == pre(self.content, len(self.content))", "self.size >= 0")
-invariant("Node", "nsize(self) >= 1", "self.content.size >= 0")
+# trusted type invariant, stated globally: every node occupies at least one token (TextNode.__init__
+# rejects empty text, a leaf is one token, any other node has an opening and a closing token)
+axiom("node-size-pos", {"n": "Node"}, "nsize(n) >= 1", "type invariant of Node: empty text nodes cannot be constructed; node_size >= 1",
+      triggers=["nsize(n)"])
 
 P2 = ["C02", "C09"]
 UT = "prosemirror/utils.py"
@@ -33,10 +36,10 @@ contract(FN, "Node.is_leaf", {"self": "Node"}, returns="bool", is_property=True,
 contract("prosemirror/model/schema.py", "NodeType.is_leaf", {"self": "NodeType"}, returns="bool", is_property=True,
          ensures=["result == leaf_t(self)"], trusted="definition of leaf_t: content_match == ContentMatch.empty", props=P2)
 contract(FN, "Node.node_size", {"self": "Node"}, returns="int", is_property=True,
-         requires=["not self.type.is_text"],  # TextNode overrides it
+         body_requires=["not self.type.is_text"],  # TextNode overrides it
          ensures=["result == nsize(self)"], props=P2)
 contract(FN, "TextNode.node_size", {"self": "TextNode"}, returns="int", is_property=True,
-         requires=["self.type.is_text"], ensures=["result == nsize(self)"], props=P2)
+         body_requires=["self.type.is_text"], ensures=["result == nsize(self)"], props=P2)
 contract(FN, "Node.child_count", {"self": "Node"}, returns="int", is_property=True, ensures=["result == len(self.content.content)"], props=P2)
 contract(FN, "Node.child", {"self": "Node", "index": "int"}, returns="Node",
          requires=["0 <= index", "index < len(self.content.content)"], ensures=["result == self.content.content[index]"], props=P2)
@@ -66,7 +69,7 @@ contract(FF, "Fragment.last_child", {"self": "Fragment"}, returns="opt[Node]", i
          ensures=["(result is None) == (len(self.content) == 0)", "result is not None ==> result == self.content[len(self.content) - 1]"], props=P2)
 
 lemma("pre-step", {"c": "list[Node]", "i": "int", "j": "int"},
-      requires=["0 <= i", "i <= j", "j <= len(c)", "all_(0, len(c), lambda q: nsize(c[q]) >= 1)"],
+      requires=["0 <= i", "i <= j", "j <= len(c)"],
       ensures=["pre(c, i) + (j - i) <= pre(c, j)"],
       induct="j", triggers=["pre(c, i)", "pre(c, j)"], props=P2)
 
@@ -83,3 +86,67 @@ contract(FF, "Fragment.find_index", {"self": "Fragment", "pos": "int", "round": 
                                    "pos < self.size", "pos > 0"],
                         decreases="self.size - cur_pos")},
          uses=["pre-step"], props=P2)
+
+# ---- lemmas about pre() under list operations (each proved by induction, used as ghost calls)
+NS1 = "all_(0, len(c), lambda q: nsize(c[q]) >= 1)"
+lemma("pre-nonneg", {"c": "list[Node]", "k": "int"},
+      requires=["0 <= k", "k <= len(c)"],
+      ensures=["pre(c, k) >= 0"], induct="k", triggers=["pre(c, k)"], props=P2)
+lemma("pre-prefix", {"c": "list[Node]", "d": "list[Node]", "k": "int"},
+      requires=["0 <= k", "k <= len(c)", "k <= len(d)", "all_(0, k, lambda j: c[j] == d[j])"],
+      ensures=["pre(c, k) == pre(d, k)"], induct="k", props=P2)
+lemma("pre-concat-left", {"a": "list[Node]", "b": "list[Node]", "k": "int"},
+      requires=["0 <= k", "k <= len(a)"],
+      ensures=["pre(a + b, k) == pre(a, k)"], induct="k", props=P2)
+lemma("pre-concat", {"a": "list[Node]", "b": "list[Node]", "k": "int"},
+      requires=["0 <= k", "k <= len(b)"],
+      ensures=["pre(a + b, len(a) + k) == pre(a, len(a)) + pre(b, k)"],
+      induct="k", calls=[("pre-concat-left", ["a", "b", "len(a)"])], props=P2)
+lemma("pre-prefix-q", {"c": "list[Node]", "d": "list[Node]", "k": "int"},
+      requires=["0 <= k", "k <= len(c)", "k <= len(d)", "all_(0, k, lambda j: c[j] == d[j])"],
+      ensures=["pre(c, k) == pre(d, k)"], induct="k", triggers=["pre(c, k)", "pre(d, k)"], props=P2)
+lemma("pre-update", {"c": "list[Node]", "i": "int", "x": "Node", "k": "int"},
+      requires=["0 <= i", "i < len(c)", "0 <= k", "k <= len(c)"],
+      ensures=["pre(c[0:i] + [x] + c[i + 1:len(c)], k) == pre(c, k) + (nsize(x) - nsize(c[i]) if k > i else 0)"],
+      induct="k", props=P2)
+
+axiom("fragment-empty", {}, "len(Fragment.empty.content) == 0 and Fragment.empty.size == 0",
+      "module-level singleton Fragment.empty = Fragment([], 0); nothing mutates it (C10 frame obligations)")
+
+contract(FF, "Fragment.cut_by_index", {"self": "Fragment", "from_": "int", "to": "opt[int]"}, returns="Fragment", uses=["pre-nonneg"],
+         requires=["0 <= from_", "to is None or (from_ <= to and to <= len(self.content))", "from_ <= len(self.content)"],
+         ensures=["to is not None ==> result.content == self.content[from_:to] or (from_ == to and len(result.content) == 0)",
+                  "to is None ==> result.content == self.content[from_:len(self.content)]"],
+         props=P2)
+contract(FF, "Fragment.replace_child", {"self": "Fragment", "index": "int", "node": "Node"}, returns="Fragment",
+         requires=["0 <= index", "index < len(self.content)"],
+         ensures=["self.content[index] == node ==> result == self",
+                  "self.content[index] != node ==> result.content == self.content[0:index] + [node] + self.content[index + 1:len(self.content)]",
+                  "result.size == self.size + nsize(node) - nsize(self.content[index])"],
+         calls=[("pre-update", ["self.content", "index", "node", "len(self.content)"])],
+         uses=["pre-nonneg"], props=P2)
+contract(FF, "Fragment.add_to_start", {"self": "Fragment", "node": "Node"}, returns="Fragment",
+         ensures=["result.content == [node] + self.content", "result.size == self.size + nsize(node)"],
+         calls=[("pre-concat", ["[node]", "self.content", "len(self.content)"])],
+         uses=["pre-nonneg"], props=P2)
+contract(FF, "Fragment.add_to_end", {"self": "Fragment", "node": "Node"}, returns="Fragment",
+         ensures=["result.content == self.content + [node]", "result.size == self.size + nsize(node)"],
+         calls=[("pre-concat", ["self.content", "[node]", "1"])],
+         uses=["pre-nonneg"], props=P2)
+
+
+def _register_class_attrs():
+    import z3
+
+    from pyvc.kinds import VObj, Obj
+    from pyvc.symexec import CLASS_ATTRS
+
+    # Fragment.empty: a distinguished object; its fields are constrained by the axiom below
+    e = z3.Const("Fragment.empty", Obj)
+    CLASS_ATTRS["Fragment.empty"] = lambda: VObj("Fragment", e)
+
+
+try:
+    _register_class_attrs()
+except ImportError:
+    pass
